@@ -54,6 +54,7 @@ type Options struct {
 	AllowTimeFrame  []string
 	ProxyProtocol   bool
 	ProxyProtoTO    time.Duration
+	ProxyProtoNoTO  bool // the PROXY header may take as long as it likes (timeout 0)
 	TLSListener     bool
 	ReadLimit       int64
 	WriteLimit      int64
@@ -76,6 +77,7 @@ type World struct {
 	Log        *MemLog
 	Cfg        *forwarder.HTTPProxyConfig
 	Addr       string
+	V6Clients  bool // Client() connects from an IPv6 source address
 	cancel     context.CancelFunc
 	runErr     chan error
 	stopped    bool
@@ -210,6 +212,9 @@ func Start(o Options) (*World, error) {
 		if o.ProxyProtoTO > 0 {
 			cfg.ProxyProtocolConfig.ReadHeaderTimeout = o.ProxyProtoTO
 		}
+		if o.ProxyProtoNoTO {
+			cfg.ProxyProtocolConfig.ReadHeaderTimeout = 0 // --proxy-protocol-read-header-timeout 0: no limit
+		}
 	}
 	if o.TLSListener {
 		cfg.Protocol = forwarder.HTTPSScheme
@@ -343,7 +348,11 @@ type Peer struct {
 // Client connects a new scripted client to the proxy.
 func (w *World) Client() (*Peer, error) {
 	w.nclient++
-	c, err := w.Net.DialFrom(fmt.Sprintf("client%d.test", w.nclient), w.Addr)
+	from := fmt.Sprintf("client%d.test", w.nclient)
+	if w.V6Clients {
+		from = fmt.Sprintf("2001:db8::c:%x", w.nclient) // clients reach the proxy from IPv6 addresses
+	}
+	c, err := w.Net.DialFrom(from, w.Addr)
 	if err != nil {
 		return nil, err
 	}
